@@ -90,7 +90,7 @@ fn dump_value(v: &ParsedValue, o: &mut String) {
 /// group: `G n` then n entries `k<hexkey>` followed by a value (see above), or by
 /// `N <top_locale_string_count> <number of sub locales> <n strings of the sub locale> <group>` for subkeys,
 /// or `M` when the locale has no entry for a key the generated code has
-fn dump_group(keys: &BuildersKeysInner, li: usize, values: &BTreeMap<Key, ParsedValue>, o: &mut String) {
+fn dump_group(keys: &BuildersKeysInner, top_name: &str, values: &BTreeMap<Key, ParsedValue>, o: &mut String) {
     write!(o, " G {}", keys.0.len()).unwrap();
     for (k, lv) in &keys.0 {
         write!(o, " k{}", &hs(&k.name)[1..]).unwrap();
@@ -99,10 +99,12 @@ fn dump_group(keys: &BuildersKeysInner, li: usize, values: &BTreeMap<Key, Parsed
                 Some(v) => dump_value(v, o),
                 None => o.push_str(" M"),
             },
-            LocaleValue::Subkeys { locales, keys } => match locales.get(li) {
+            // the nested Locale of THIS top locale: the generated code names accessors and match arms after
+            // `top_locale_name` of each nested Locale, `propagate_string_count` pairs them with the top locales by position
+            LocaleValue::Subkeys { locales, keys } => match locales.iter().find(|l| &*l.top_locale_name.name == top_name) {
                 Some(sub) => {
                     write!(o, " N {} {} {}", sub.top_locale_string_count, locales.len(), sub.strings.len()).unwrap();
-                    dump_group(keys, li, &sub.keys, o);
+                    dump_group(keys, top_name, &sub.keys, o);
                 }
                 None => write!(o, " X {}", locales.len()).unwrap(),
             },
@@ -134,14 +136,14 @@ fn dump_unit(ns: Option<&str>, locales: &[Locale], keys: &BuildersKeysInner, out
     let nsn = ns.map(|n| hs(n)).unwrap_or_else(|| "-".to_string());
     write!(out, ";I {}", nsn).unwrap();
     dump_kinds(keys, out);
-    for (li, l) in locales.iter().enumerate() {
+    for l in locales.iter() {
         let nsn = ns.map(|n| hs(n)).unwrap_or_else(|| "-".to_string());
         write!(out, ";U {} {} {} {}", nsn, hs(&l.name.name), l.top_locale_string_count, l.strings.len()).unwrap();
         for s in &l.strings {
             write!(out, " {}", hs(s)).unwrap();
         }
         write!(out, ";T {} {}", nsn, hs(&l.name.name)).unwrap();
-        dump_group(keys, li, &l.keys, out);
+        dump_group(keys, &l.name.name, &l.keys, out);
     }
 }
 
